@@ -99,6 +99,20 @@ reg("C05", "exploration",
     "DESIGN.md section 3, C05")
 
 
+reg("C06", "exploration",
+    "Generated-input search on the response path: binding lists (0..200) of all thirteen value types over their full "
+    "ranges are encoded by the independent encoder with a generated definite length form (short / minimal long / long "
+    "padded to 1..4 octets) for EVERY TLV header, framed for v1, v2c, SNMPv3 plaintext and SNMPv3 with the scoped PDU "
+    "encrypted by the harness plug-ins, and delivered through get, multiget, getnext, multigetnext and bulkget of the "
+    "real client with request-id and error-index over Integer32; the oracle is the type and value the independent "
+    "decoder reads from the same bytes. Law cases check decode -> content fields and decode -> bytes -> same content "
+    "tree for PDU, ScopedPDU, USMSecurityParameters and Message.",
+    "Trusts lib/vber.py; canonical value contents only (device-style unsigned contents are C17); authenticated messages "
+    "use minimal outer lengths (C10 covers authentic minimal messages).",
+    "Hypothesis property-based testing with an independent encoder/decoder pair as oracle (round trip + re-encode law)",
+    "DESIGN.md section 3, C06")
+
+
 def main():
     present = sorted(os.path.basename(p)[:3].upper()
                      for p in glob.glob(os.path.join(VERIF, "checks", "c[0-9][0-9]_*.py")))
